@@ -19,10 +19,13 @@
 (* Methods that take no record are followed by the caller's own update of  *)
 (* the record (C08_Defs!CallerRecord: what the documentation promises).    *)
 (*                                                                         *)
-(* Dev : the deviations of the pinned code that are known findings; the    *)
-(* main configurations run with Dev = {} (the smallest repair), the         *)
-(* self-test configurations enable one deviation each and must FAIL, the   *)
-(* simulation for replay runs the code as it is (all deviations).          *)
+(* Dev : named deviations from a sound record arithmetic.  "sample_info"    *)
+(* and "measure_outcome" are what the code still does (known findings      *)
+(* KF-C08-2 / KF-C08-4); "swap_both", "measure_last", "tnorm_flag" are what *)
+(* it did before the fix: commits 9081c46d / fe668b26 / fb49fbf5.  The main *)
+(* configurations run with Dev = {} (the fixed code without the two open   *)
+(* findings), the self-test configurations enable one deviation each and   *)
+(* must FAIL, the simulation for replay runs the code as it is now.        *)
 (***************************************************************************)
 EXTENDS C08_Defs, SequencesExt, Json
 
@@ -93,7 +96,7 @@ SwapAdj(s, i, ab) ==
       s2 == Put(Put(s1, i, ab = "right", FALSE, "N"), i + 1, FALSE, ab = "left", "N")
   IN  [s2 EXCEPT !.rec = IF ab = "left" THEN <<i, i>>
                          ELSE IF ab = "right" THEN <<i + 1, i + 1>>
-                         ELSE IF "swap_both" \in Dev THEN s1.rec     \* record left as canonicalize set it
+                         ELSE IF "swap_both" \in Dev THEN s1.rec     \* (before 9081c46d) record left as canonicalize set it
                          ELSE <<i, i + 1>>]
 RECURSIVE SwapUp(_, _, _, _)     \* for j in range(i, f): swap (j, j+1)
 SwapUp(s, i, f, ab) == IF i >= f THEN s ELSE SwapUp(SwapAdj(s, i, ab), i + 1, f, ab)
@@ -127,9 +130,14 @@ SubSweep(s, k, si, sf, rev) ==
   IF k > sf THEN s
   \* (the claims set by compress_between may or may not survive the final permute_arrays: none is modelled)
   ELSE SubSweep(IF rev THEN Put(s, k, k < sf, FALSE, "N") ELSE Put(s, k, FALSE, k > si, "N"), k + 1, si, sf, rev)
-SubMPO(s, si, sf, rev) ==
+\* method='fit': the section ends canonical at one of its two ends, which one depends on the number of sweeps:
+\* nothing is guaranteed for the individual sites and (since 9c45af81) the whole region is recorded
+RECURSIVE FitSweep(_, _, _)
+FitSweep(s, k, sf) == IF k > sf THEN s ELSE FitSweep(Put(s, k, FALSE, FALSE, "N"), k + 1, sf)
+SubMPO(s, si, sf, rev, fit) ==
   LET s1 == Canon(s, si, sf, TRUE) IN
-  [SubSweep(s1, si, si, sf, rev) EXCEPT !.rec = IF rev THEN <<sf, sf>> ELSE <<si, si>>]
+  IF fit THEN [FitSweep(s1, si, sf) EXCEPT !.rec = <<si, sf>>]
+  ELSE [SubSweep(s1, si, si, sf, rev) EXCEPT !.rec = IF rev THEN <<sf, sf>> ELSE <<si, si>>]
 
 \* compress_site(i, canonize=True)
 CompressSite(s, i) ==
@@ -199,8 +207,8 @@ GateSplit == \E i \in Sites, ab \in {"left", "right", "both"}, rev \in BOOLEAN :
   IN  Step(a, Caller(st, s1, a.op, a), None)
 GateAutoSwap == \E i \in Sites, j \in Sites, back \in BOOLEAN : i # j /\ Usable /\
   Step([op |-> "gate_with_auto_swap", i |-> i, j |-> j, swap_back |-> back], AutoSwap(st, i, j, back), None)
-GateSubMPO == \E si \in Sites, sf \in Sites, rev \in BOOLEAN : si < sf /\ Usable /\
-  Step([op |-> "gate_with_submpo", si |-> si, sf |-> sf, rev |-> rev], SubMPO(st, si, sf, rev), None)
+GateSubMPO == \E si \in Sites, sf \in Sites, rev \in BOOLEAN, fit \in BOOLEAN : si < sf /\ Usable /\
+  Step([op |-> "gate_with_submpo", si |-> si, sf |-> sf, rev |-> rev, fit |-> fit], SubMPO(st, si, sf, rev, fit), None)
 GateMPO == \E n \in {st.L}, rev \in BOOLEAN :
   LET a == [op |-> "gate_with_mpo", rev |-> rev]
       s1 == SubSweep(st, 0, 0, st.L - 1, rev)
@@ -225,7 +233,8 @@ MeasureA == \E site \in Sites, remove \in BOOLEAN, oonly \in BOOLEAN, inplace \i
   /\ Usable /\ (remove => (st.L >= 3 /\ ~oonly))
   /\ Step([op |-> "measure", site |-> site, remove |-> remove, outcome_only |-> oonly, inplace |-> inplace],
           Measure(st, site, remove, oonly, inplace),
-          IF oonly /\ ~inplace THEN None ELSE None)
+          \* the outcome probabilities are read off the tensor of `site` (of the receiver, unless a copy was measured)
+          IF ~remove /\ (inplace \/ ~oonly) THEN <<site, site>> ELSE None)
 \* schmidt_values / entropy / schmidt_gap / singular_values / bipartite_schmidt_state: canonicalize_(i)
 BondQuery == \E i \in Sites : i > 0 /\ Usable /\
   Step([op |-> "bond_query", i |-> i], Canon(st, i, i, TRUE), <<i, i>>)
